@@ -40,7 +40,7 @@ def alias(ti: int, ii: int, sp: int) -> str:
 
 
 learn_st = st.fixed_dictionaries({'op': st.just('learn'), 'type': st.integers(0, 1), 'inst': st.integers(0, 3), 'sp': st.sampled_from([0, 0, 0, 1]),
-                                  'ttl': st.sampled_from(TTLS + [0])})
+                                  'ttl': st.sampled_from(TTLS + [0]), 'repeat': st.sampled_from([0, 0, 0, 1, 2])})
 tick_st = st.one_of(
     st.sampled_from([10, 1000, 5000, 14000, 20000, 40000, 60000, 300000, 900000, 1000000, 3000000]).map(lambda ms: {'op': 'tick', 'ms': ms}),
     st.integers(0, 5000000).map(lambda ms: {'op': 'tick', 'ms': ms}),
@@ -126,7 +126,8 @@ class Exec:
                 name = alias(op['type'], op['inst'], op['sp'])
                 rr = {'name': wire.labels_of(TYPES[op['type']]), 'type': 12, 'cls': 1, 'ttl': op['ttl'],
                       'rd': {'target': wire.labels_of(name)}}
-                data = wire.encode({'id': msg_id, 'flags': 0x8400, 'qd': [], 'an': [rr], 'ns': [], 'ar': []})
+                # legal but unusual: the same pointer listed two or three times in one datagram (same effective TTL)
+                data = wire.encode({'id': msg_id, 'flags': 0x8400, 'qd': [], 'an': [rr] * (1 + op.get('repeat', 0)), 'ns': [], 'ar': []})
                 msg_id += 1
                 now = w.clock.t
                 self._expire(now)
